@@ -273,6 +273,10 @@ def body(chk):
     sched.get_obligations(chk, 'C05', focus='deadline')
     from checks import sched_worlds
     sched_worlds.run(chk, 'C05')
+    # "attempted again exactly when the previous attempt failed and the budget is not exhausted": the decision is taken in
+    # the real run_scenario coroutine (failed step / hook / World creation, ambiguous match) - one attempt, modelled user code
+    from checks import attempt_driver
+    attempt_driver.run(chk, 'C05')
 
 
 if __name__ == '__main__':
